@@ -98,3 +98,97 @@ def eval_value(src):
   ns = {}
   exec(USER_CLASSES, ns)  # pylint: disable=exec-used
   return eval(src, ns)  # pylint: disable=eval-used
+
+
+# ---------------------------------------------------------------- pytd nodes -> type terms
+
+_BASES = {"list": "list", "set": "set", "frozenset": "frozenset", "dict": "dict",
+          "Sequence": "Sequence", "Iterable": "Iterable", "Mapping": "Mapping",
+          "List": "list", "Set": "set", "FrozenSet": "frozenset", "Dict": "dict"}
+
+
+def _short(name):
+  for pre in ("builtins.", "typing.", "collections.abc."):
+    if name.startswith(pre):
+      return name[len(pre):]
+  return name
+
+
+ANY = ["any", "", []]
+
+
+def from_pytd(t):
+  """pytd type node -> type term (JSON form).  Forms the spec does not describe become Any
+  (soundness reading: never an alarm about something the spec does not understand)."""
+  from pytype.pytd import pytd
+  if isinstance(t, pytd.AnythingType):
+    return ANY
+  if isinstance(t, pytd.NothingType):
+    return ["nothing", "", []]
+  if isinstance(t, pytd.UnionType):
+    return ["union", "", [from_pytd(x) for x in t.type_list]]
+  if isinstance(t, pytd.CallableType):
+    return ["callable", "", []]
+  if isinstance(t, pytd.TupleType):
+    return ["tuple", "", [from_pytd(x) for x in t.parameters]]
+  if isinstance(t, pytd.GenericType):
+    base = _short(t.base_type.name)
+    if base == "tuple":
+      return ["gen", "tuplevar", [from_pytd(t.parameters[0])]]
+    if base == "type":
+      return ["type", "", [from_pytd(t.parameters[0])]]
+    if base in ("Callable",):
+      return ["callable", "", []]
+    if base in _BASES:
+      return ["gen", _BASES[base], [from_pytd(x) for x in t.parameters]]
+    return ANY
+  if isinstance(t, (pytd.ClassType, pytd.NamedType, pytd.LateType)):
+    n = _short(t.name)
+    if n in ("Callable",):
+      return ["callable", "", []]
+    if n in ("Any",):
+      return ANY
+    if n == "None":
+      n = "NoneType"
+    if "." in n:
+      return ANY
+    return ["cls", n, []]
+  return ANY    # TypeParameter, Literal, Annotated, Concatenate, ...
+
+
+def stub_slots(ast):
+  """Inferred module AST -> dict(names: name -> type term, classes: cls -> attr -> term,
+  rets: function or Class.method -> term, has_getattr, class_getattr: set)."""
+  from pytype.pytd import pytd
+  out = {"names": {}, "classes": {}, "rets": {}, "bases": {}, "has_getattr": False,
+         "class_getattr": []}
+  for c in ast.constants:
+    out["names"][c.name] = from_pytd(c.type)
+  for a in ast.aliases:
+    if isinstance(a.type, (pytd.ClassType, pytd.NamedType)) and a.type.name in {c.name for c in ast.classes}:
+      out["names"][a.name] = ["type", "", [["cls", a.type.name, []]]]
+    elif isinstance(a.type, pytd.Function) or (
+        isinstance(a.type, pytd.NamedType) and a.type.name in {f.name for f in ast.functions}):
+      out["names"][a.name] = ["callable", "", []]
+    else:
+      out["names"][a.name] = ANY
+  for f in ast.functions:
+    if f.name == "__getattr__":
+      out["has_getattr"] = True
+      continue
+    out["names"][f.name] = ["callable", "", []]
+    out["rets"][f.name] = ["union", "", [from_pytd(s.return_type) for s in f.signatures]]
+  for c in ast.classes:
+    out["names"][c.name] = ["type", "", [["cls", c.name, []]]]
+    out["bases"][c.name] = [_short(b.name) if hasattr(b, "name") else "?" for b in c.bases]
+    attrs = {}
+    for k in c.constants:
+      attrs[k.name] = from_pytd(k.type)
+    for m in c.methods:
+      if m.name == "__getattr__":
+        out["class_getattr"].append(c.name)
+      attrs.setdefault(m.name, ["callable", "", []])
+      out["rets"]["%s.%s" % (c.name, m.name)] = ["union", "", [from_pytd(s.return_type)
+                                                                for s in m.signatures]]
+    out["classes"][c.name] = attrs
+  return out
